@@ -63,11 +63,13 @@ def parse(out):
     return res
 
 
-def run(scratch, harness, td, timeout_s, mem_gb=20, extra=(), logdir=None, playback=False, full=None, only_property=None):
+def run(scratch, harness, td, timeout_s, mem_gb=20, extra=(), logdir=None, playback=False, full=None, only_property=None, package=None):
     """Run `cargo kani` for one harness. Returns the parsed dict + 'outcome' in
     {pass, fail, inconclusive} and the raw log path."""
     os.makedirs(td, exist_ok=True)
     args = ["cargo", "kani", "-Z", "stubbing", "--harness", full or harness, "--exact", "--target-dir", td]
+    if package:
+        args += ["-p", package]
     if playback:
         args += ["-Z", "concrete-playback", "--concrete-playback=print"]
     args += list(extra)
@@ -153,7 +155,7 @@ def extract_playback_tests(out):
     return tests
 
 
-def native_replay(scratch, harness_file, test, td, timeout_s=900):
+def native_replay(scratch, harness_file, test, td, timeout_s=900, package=None):
     """Append a generated concrete-playback test to the scratch harness module and run it
     natively (dev profile; cargo kani playback has no release switch that keeps debug
     assertions semantics identical, so release is run with --release separately by the caller
@@ -167,7 +169,7 @@ def native_replay(scratch, harness_file, test, td, timeout_s=900):
     # `cargo kani playback` rejects --target-dir on some versions: fall back to CARGO_TARGET_DIR
     env = _env()
     env["CARGO_TARGET_DIR"] = td
-    cmd = f"cargo kani playback -Z concrete-playback --lib -- {test['name']}"
+    cmd = f"cargo kani playback -Z concrete-playback --lib {('-p ' + package) if package else ''} -- {test['name']}"
     p = subprocess.run(
         ["bash", "-c", cmd], cwd=scratch, env=env, text=True, capture_output=True, timeout=timeout_s
     )
